@@ -130,7 +130,9 @@ def merge_settings(parts):
     return st
 
 
-EXCLUSIVE = [("derive_abs", "derive_path"), ("patch_abs", "patch_path"), ("patch_abs", "patch"), ("derive_pe", "derive_pe_eq"), ("map_btree", "map_vmap"), ("map_btree", "map_btree_rel"), ("map_btree", "map_vmap_rel"), ("map_vmap", "map_btree_rel"), ("map_vmap", "map_vmap_rel"),
+EXCLUSIVE = [("derive_abs", "derive_path"), ("patch_abs", "patch_path"), ("patch_abs", "patch"),
+             ("derive_abs", "patch_path"), ("patch_abs", "derive_path"), ("derive_abs", "map_btree_rel"), ("patch_abs", "map_btree_rel"),   # schemars' own derive expands to relative std:: paths, which the shadow module of the global-path features would capture
+              ("derive_pe", "derive_pe_eq"), ("map_btree", "map_vmap"), ("map_btree", "map_btree_rel"), ("map_btree", "map_vmap_rel"), ("map_vmap", "map_btree_rel"), ("map_vmap", "map_vmap_rel"),
              ("map_btree_rel", "map_vmap_rel"), ("unk_allow", "unk_deny"), ("unk_allow", "unk_generate"), ("unk_deny", "unk_generate")]
 
 
